@@ -25,6 +25,8 @@ SIGS = [
     ("x: A, opts=[], flag: bool = False", ["(X)", "(X, [1])", "(X, flag=True)", "(X, opts={'k': [1]})"]),
     ("x: A, *rest, y: B, **extra", ["(X, 1, 2, y=Y)", "(X, y=Y, z=3)", "(X, 1, y=Y, z=3, w=[4])"]),
     ("x: A, n: int = 7, *, scale: float = 1.5, **kw", ["(X)", "(X, 8)", "(X, scale=2.0, mode='m')"]),
+    ("x: A, *rest: int, **options: object", ["(X)", "(X, 1, 2)", "(X, k=1)", "(x=X)"]),
+    ("*xs: int, x: A, **kw: str", ["(x=X)", "(1, 2, x=X, s='t')"]),
 ]
 
 
